@@ -15,6 +15,8 @@
 //     scribbled over and freed right after the call; key order of 6 and a>10 is seeded.
 //   value v (abstract integer): concrete = v * scale(instrument); long scales {1,7,1000,2^33},
 //     double scales {1.0,0.25,1024.0,2^40} (all products/differences exact); value type per instrument seeded.
+//   observable gauge only: with probability 1/4 a callback first observes a decoy (v+3) for the same set and
+//     then the value it reports (last observation wins - "the most recently observed value").
 //   callback c: (trampoline K, state pointer S) per seeded mode: same function/distinct states, distinct
 //     functions/one state, mixed, or shared (K,S) across instruments of different value type.
 //   instrument i lives in meter (i-1) mod nm, nm in {1,2} seeded; names are distinct per instrument.
@@ -421,23 +423,34 @@ struct World
       AttrArg aa;
       build_attrs(p.first, (rng() % 2) == 1, aa);
       bool no_attr_overload = (p.first == 1) && (rng() % 2 == 0);
+      // gauge only ("the most recently observed value"): now and then the callback first observes a
+      // decoy for the same set and then the value it really reports
+      bool decoy = in.kind == "ogauge" && (rng() % 4 == 0);
       if (dbl)
       {
         auto r   = nostd::get<nostd::shared_ptr<api::ObserverResultT<double>>>(res);
         double v = static_cast<double>(p.second) * in.dscale;
-        if (no_attr_overload)
-          r->Observe(v);
-        else
-          r->Observe(v, opentelemetry::common::KeyValueIterableView<decltype(aa.kv)>(aa.kv));
+        for (int pass = decoy ? 0 : 1; pass < 2; ++pass)
+        {
+          double x = pass ? v : v + 3 * in.dscale;
+          if (no_attr_overload)
+            r->Observe(x);
+          else
+            r->Observe(x, opentelemetry::common::KeyValueIterableView<decltype(aa.kv)>(aa.kv));
+        }
       }
       else
       {
         auto r    = nostd::get<nostd::shared_ptr<api::ObserverResultT<int64_t>>>(res);
         int64_t v = static_cast<int64_t>(p.second) * in.lscale;
-        if (no_attr_overload)
-          r->Observe(v);
-        else
-          r->Observe(v, opentelemetry::common::KeyValueIterableView<decltype(aa.kv)>(aa.kv));
+        for (int pass = decoy ? 0 : 1; pass < 2; ++pass)
+        {
+          int64_t x = pass ? v : v + 3 * in.lscale;
+          if (no_attr_overload)
+            r->Observe(x);
+          else
+            r->Observe(x, opentelemetry::common::KeyValueIterableView<decltype(aa.kv)>(aa.kv));
+        }
       }
       aa.scribble();
     }
